@@ -56,7 +56,7 @@ type ar struct {
 
 func (a *ar) unk(what string) (string, kind) {
 	a.unknown++
-	return fmt.Sprintf("(Gen.arithUnknown %d /- %s -/)", a.unknown, strings.ReplaceAll(what, "-/", "- /")), kBad
+	return fmt.Sprintf("(Gen.anyUnknown %d /- %s -/)", a.unknown, strings.ReplaceAll(what, "-/", "- /")), kBad
 }
 
 func kindOf(s string) kind {
@@ -685,6 +685,7 @@ func genArith(repo, out string) {
 	var b strings.Builder
 	b.WriteString("/- GENERATED by /verif/extract from /repo/pkg/controller/util.go — do not edit. -/\nnamespace Esc.Gen\n\n")
 	b.WriteString("/-- A construct of util.go the translator does not understand: opaque, so nothing can be proved from it. -/\nopaque arithUnknown : Nat → Int\n\n")
+	b.WriteString("/-- The same, of whatever type the place it stands in needs (a condition, a value, a result). -/\nopaque anyUnknown {α : Type} [Inhabited α] : Nat → α\n\n")
 	b.WriteString("/-- A float64 that is either an ordinary value (the rational it denotes) or the sentinel `math.MaxFloat64`. -/\ninductive F where\n  | fin (q : Rat)\n  | maxFloat\nderiving DecidableEq, Repr, Inhabited\n\n")
 	b.WriteString("def F.val : F → Rat\n  | .fin q => q\n  | .maxFloat => 0\n\n")
 	b.WriteString("/-- `math.Max`, `<` and `>` against an ordinary value, with `math.MaxFloat64` above every ordinary value. -/\n")
